@@ -365,8 +365,41 @@ theorem next_body_tie (s : Schema) (D : Nat) (fresh : Target) (it : IterSt)
     have hst := hlen
     tail_tac
 
-theorem root_with_tie (D : Nat) (slots : List Nat) (d : Nat) (t : NodeType) :
-    NodeIter.root_with D (slots ++ List.replicate (D - slots.length) 0) ⟨d, t⟩ =
-      itToGen ⟨slots ++ List.replicate (D - slots.length) 0, d, D + 1⟩ := rfl
+/-- `self.state.transcode::<M, _>(root)` on the cleared state, against the model's transcoding of the root key into
+`D` index slots: the consumed indices in place (the rest still zero) and the node, or the traversal error -/
+def TcStateRel (s : Schema) (D : Nat) (ks : KeySrc) (tc : List Nat → List Nat × Except Traversal Node) : Prop :=
+  match s.transcode ks (.idx [] D (2 ^ 64 - 1)) with
+  | (.err e, _) => ∃ st e', travToGen e = some e' ∧ tc (List.replicate D 0) = (st, .error e')
+  | (.leaf d, .idx slots _ _) =>
+    tc (List.replicate D 0) = (slots ++ List.replicate (D - slots.length) 0, .ok ⟨d, .Leaf⟩)
+  | (.internal d, .idx slots _ _) =>
+    tc (List.replicate D 0) = (slots ++ List.replicate (D - slots.length) 0, .ok ⟨d, .Internal⟩)
+  | _ => False
+
+/-- **`NodeIter::root` as translated from iter.rs is the model's `withRoot`, whatever the iterator did before**: the
+state is cleared first, so indices left by earlier iteration or an earlier root never become the start position. -/
+theorem root_tie (s : Schema) (D : Nat) (ks : KeySrc) (it0 : IterSt)
+    (tc : List Nat → List Nat × Except Traversal Node) (h : TcStateRel s D ks tc) :
+    match IterSt.withRoot s D ks with
+    | .ok it => NodeIter.reroot D tc (itToGen it0) = .ok (itToGen it)
+    | .error e => ∃ e', travToGen e = some e' ∧ NodeIter.reroot D tc (itToGen it0) = .error e' := by
+  unfold TcStateRel at h
+  unfold IterSt.withRoot
+  cases hx : s.transcode ks (.idx [] D (2 ^ 64 - 1)) with
+  | mk r t =>
+    rw [hx] at h
+    cases r with
+    | err e =>
+      obtain ⟨st, e', he, htc⟩ := h
+      simp only [NodeIter.reroot, itToGen, htc]
+      exact ⟨e', he, rfl⟩
+    | leaf d =>
+      cases t with
+      | idx slots c m => simp only at h ⊢; simp only [NodeIter.reroot, itToGen, h]
+      | _ => exact absurd h (by simp)
+    | internal d =>
+      cases t with
+      | idx slots c m => simp only at h ⊢; simp only [NodeIter.reroot, itToGen, h]
+      | _ => exact absurd h (by simp)
 
 end MiniconfVerif.GenTie
